@@ -135,8 +135,10 @@ CLAIMS["C05"] = dict(
          "update() records dt / probes / screening iterations once per step. Reader side, against the writer's postcondition as file model (symbolic number of "
          "frames, buffer size and probes): the real DynamicsData.from_hdf5 (frame loop cut at an invariant over lists of symbolic length) returns one record per "
          "step, in step order, time = T(j+1); the real Solution.times returns exactly the frame times; load_tdgl_data reads the records over all frames whatever "
-         "frame is loaded. What save_time_step makes of the buffer on disk (squeeze / ranks) is covered only by the exhaustive bounded native run (k <= N+2, "
-         "N <= 9). Four defects found here were repaired by fix: commits.",
+         "frame is loaded. The link between the two - the real DataHandler.save_time_step - is under contract over the abstract HDF5 store for symbolic buffer size, "
+         "probe count and array sizes: frames are numbered in call order and labelled with the state handed over, hold the arrays handed over, a single-row buffer "
+         "(dt, screening iterations) is stored as a vector over the buffer for EVERY buffer size incl. 1, a probe buffer as probes x buffer. That real h5py returns "
+         "arrays of these ranks is the exhaustive bounded native run (k <= N+2, N <= 9). Four defects found here were repaired by fix: commits.",
     design_ref="DESIGN.md section 4 C05",
     technique="contract-based deductive verification: loop invariants with ghost history on the real runner and on the real reader (lists of symbolic length, prefix-mask and induction lemmas with their own VCs), VCs to z3; bounded native stand-in for the HDF5 layout",
     note=TRUST + " dt>0 from C12. tqdm/logging/monitor outside the contract.")
